@@ -301,4 +301,35 @@ def admissible (t : Trace) : Bool := match run {} t with | .ok _ => true | .erro
 
 end C05
 
+/-! ## the function `pmodel eventsmon` runs: both monitors, fed line by line -/
+
+/-- state of the pair of monitors; a monitor that has rejected stays rejected -/
+structure MM where
+  m4 : Except String C04.M := .ok {}
+  m5 : Except String C05.M := .ok {}
+
+inductive Verdict where
+  | ok
+  | bad4 (why : String)     -- C04 violated
+  | bad5 (why : String)     -- C05 violated
+
+def feed4 (m : Except String C04.M) (evs : List Ev) : Except String C04.M := do C04.run (← m) evs
+def feed5 (m : Except String C05.M) (evs : List Ev) : Except String C05.M := do C05.run (← m) evs
+
+/-- the events of one line of the implementation; `use4`/`use5` select the monitors (C04 is reported first) -/
+def monStep (use4 use5 : Bool) (s : MM) (evs : List Ev) : MM × Verdict :=
+  let m4 := if use4 then feed4 s.m4 evs else s.m4
+  let m5 := if use5 then feed5 s.m5 evs else s.m5
+  ({ m4, m5 },
+   match m4, m5 with
+   | .error e, _ => .bad4 e
+   | _, .error e => .bad5 e
+   | _, _ => .ok)
+
+/-- every line accepted -/
+def acceptsLines (use4 use5 : Bool) : MM → List (List Ev) → Bool
+  | _, [] => true
+  | s, l :: ls =>
+    (match (monStep use4 use5 s l).2 with | .ok => true | _ => false) && acceptsLines use4 use5 (monStep use4 use5 s l).1 ls
+
 end Percival.Spec.Events
